@@ -9,6 +9,7 @@ package c16
 import (
 	"errors"
 	"fmt"
+	"math"
 	"sort"
 	"strconv"
 	"strings"
@@ -91,7 +92,27 @@ type recorder struct {
 }
 
 func (r *recorder) PushMessageById(ns *service.NodeService, serverId string, sessionId uint32, route string, msg any) {
-	r.PushMessageByIds(ns, serverId, []uint32{sessionId}, route, msg)
+	r.w.pushes = append(r.w.pushes, pushTuple{serverId, []uint32{sessionId}, route, showMsg(msg)})
+	if ns == r.w.ns {
+		// the real single-id path (impls.PushMessageById: pushLocal with a one-element list, else the directory)
+		r.real.PushMessageById(ns, serverId, sessionId, route, msg)
+	}
+}
+
+// msgVal turns the msg token of an op line into the value handed to the code: `~inf` is a value the
+// client serializer (encoding/json) cannot marshal (the push layer drops the error and pushes empty data).
+func msgVal(msg string) any {
+	if msg == "~inf" {
+		return math.Inf(1)
+	}
+	return msg
+}
+
+func showMsg(msg any) string {
+	if f, ok := msg.(float64); ok && math.IsInf(f, 1) {
+		return "~inf"
+	}
+	return fmt.Sprint(msg)
 }
 
 func (r *recorder) PushMessageByIds(ns *service.NodeService, serverId string, ids []uint32, route string, msg any) {
@@ -110,7 +131,7 @@ func (r *recorder) PushMessageByIds(ns *service.NodeService, serverId string, id
 		}
 	}
 	cp := append([]uint32(nil), ids...)
-	r.w.pushes = append(r.w.pushes, pushTuple{serverId, cp, route, fmt.Sprint(msg)})
+	r.w.pushes = append(r.w.pushes, pushTuple{serverId, cp, route, showMsg(msg)})
 	if ns == r.w.ns {
 		// the real push layer: in place for the issuing front-end itself, one sys.pushmsg
 		// request towards any other service the directory knows (captured by sendCtx)
@@ -324,8 +345,13 @@ func (w *world) bcast(ch *channel.Channel, route, msg string) string {
 	if ch == nil {
 		return "nil"
 	}
+	return w.pushObs(func() { ch.PushMessage(route, msgVal(msg)) })
+}
+
+// pushObs runs f (a broadcast or a direct push) and renders what the push layer was handed and did.
+func (w *world) pushObs(f func()) string {
 	w.pushes = nil
-	ch.PushMessage(route, msg)
+	f()
 	ps := w.pushes
 	sort.SliceStable(ps, func(i, j int) bool { return ps[i].front < ps[j].front })
 	// tuples with an empty id list reach nobody: whether they are sent is not
@@ -699,6 +725,37 @@ func guarded(ws []string) string {
 			}
 			w.svc.FreeTempChannel(ch)
 			return "ok"
+		case "dpush", "dpush1":
+			// channel.Service.PushMessageByIds / PushMessageById: a push straight to (front, ids), no channel involved
+			f, ok1 := hx.KV(ws, "front")
+			route, ok2 := hx.KV(ws, "route")
+			msg, ok3 := hx.KV(ws, "msg")
+			if !ok1 || !ok2 || !ok3 {
+				return "bad-op"
+			}
+			cb := 0
+			done := func(e error, r interface{}) {
+				if e == nil && r == nil {
+					cb++
+				} else {
+					cb += 100
+				}
+			}
+			var obs string
+			if ws[0] == "dpush" {
+				ids, ok := idList(ws)
+				if !ok {
+					return "bad-op"
+				}
+				obs = w.pushObs(func() { w.svc.PushMessageByIds(w.ns, f, ids, route, msgVal(msg), done) })
+			} else {
+				id, ok := u32(ws, "id")
+				if !ok {
+					return "bad-op"
+				}
+				obs = w.pushObs(func() { w.svc.PushMessageById(w.ns, f, id, route, msgVal(msg), done) })
+			}
+			return fmt.Sprintf("%s cb=%d", obs, cb)
 		case "alloctemp":
 
 			k, ok := hx.KV(ws, "slot")
@@ -1569,6 +1626,72 @@ func backendCase(h *hx.T, g *gen, run func(string), idx int) {
 	h.Count("case.issuer-without-sessions")
 }
 
+// directCase: pushes straight to (front, ids) through channel.Service.PushMessageByIds / PushMessageById
+// (the real impls single-id and multi-id paths behind the recorder), addressed to the issuing service
+// (with or without a "sessions" component), the second front-end, a remote-only front and a name the
+// directory does not know; id lists with live, unknown, duplicate and closed connections; interleaved
+// with channel broadcasts, some carrying a message the client serializer cannot marshal (`~inf`).
+func directCase(h *hx.T, g *gen, run func(string), idx int) {
+	r := h.R
+	g.slots, g.slotN = nil, 0
+	local := []string{"f1", "f2", "f1", "chat-1", "f3"}[idx%5]
+	second := []string{"f2", "f1", "", "f2", "f1"}[idx%5]
+	reset := "reset local=" + local
+	if idx%5 >= 3 && r.Intn(2) == 0 {
+		reset += " nosess=1"
+	}
+	if second != "" {
+		reset += " second=" + second
+	}
+	run(reset)
+	for i, k := 0, 1+r.Intn(4); i < k; i++ {
+		run("sadd")
+	}
+	if second != "" {
+		for i, k := 0, 1+r.Intn(4); i < k; i++ {
+			run("sadd at=b")
+		}
+	}
+	fronts := []string{"f1", "f2", "f3", local, "nowhere"}
+	msg := func() string {
+		if r.Intn(6) == 0 {
+			h.Count("direct.unserialisable-msg")
+			return "~inf"
+		}
+		return fmt.Sprintf("m%d", r.Intn(1000))
+	}
+	for i, k := 0, 8+r.Intn(16); i < k; i++ {
+		switch x := r.Intn(20); {
+		case x < 7:
+			n := r.Intn(6)
+			ids := make([]uint32, n)
+			for j := range ids {
+				ids[j] = uint32(1 + r.Intn(7))
+			}
+			f := fronts[r.Intn(len(fronts))]
+			if f == local {
+				h.Count("direct.to-issuer")
+			}
+			run(fmt.Sprintf("dpush front=%s ids=%s route=d%d msg=%s", f, showIds(ids), r.Intn(3), msg()))
+		case x < 12:
+			run(fmt.Sprintf("dpush1 front=%s id=%d route=s%d msg=%s", fronts[r.Intn(len(fronts))], 1+r.Intn(7), r.Intn(3), msg()))
+		case x < 15:
+			run(fmt.Sprintf("join ch=%s front=%s id=%d", chanNames[r.Intn(2)], fronts[r.Intn(len(fronts))], 2+r.Intn(5)))
+		case x < 17:
+			run(fmt.Sprintf("bcast ch=%s route=k%d msg=%s", chanNames[r.Intn(2)], r.Intn(3), msg()))
+		case x < 18:
+			run(fmt.Sprintf("sclose id=%d", 2+r.Intn(4)))
+		case x < 19 && second != "":
+			run(fmt.Sprintf("sdel id=%d at=b", 2+r.Intn(4)))
+		default:
+			run(fmt.Sprintf("sdel id=%d", 2+r.Intn(4)))
+		}
+	}
+	run(fmt.Sprintf("dpush front=%s ids=2,9,3,2 route=end msg=fin", local))
+	run("bcast ch=a route=end msg=~inf")
+	h.Count("case.direct-push")
+}
+
 func (g *gen) pushOp(kind string) string {
 	r := g.h.R
 	n := r.Intn(7)
@@ -1598,6 +1721,20 @@ func countObs(h *hx.T, op, obs string) {
 		}
 		if !strings.HasSuffix(obs, "dlb=") {
 			h.Count("bcast.second-front-delivery")
+		}
+	case strings.HasPrefix(op, "dpush"):
+		if obs == "bad-op" {
+			return
+		}
+		h.Count("direct.tuples=" + strings.SplitN(strings.TrimPrefix(obs, "n="), " ", 2)[0])
+		if !strings.Contains(obs, " dl= ") {
+			h.Count("direct.local-delivery")
+		}
+		if !strings.Contains(obs, " sent= ") {
+			h.Count("direct.sent-onward")
+		}
+		if !strings.Contains(obs, "dlb= ") {
+			h.Count("direct.second-front-delivery")
 		}
 	case strings.HasPrefix(op, "spush"), strings.HasPrefix(op, "syspush"):
 		if strings.HasPrefix(obs, "dl=") && !strings.HasPrefix(obs, "dl= ") && obs != "dl=" {
@@ -1705,6 +1842,9 @@ func TestRun(t *testing.T) {
 	}
 	for i, k := 0, hx.EnvInt("VERIF_BACKEND", 40); i < k; i++ {
 		backendCase(h, g, run, i)
+	}
+	for i, k := 0, hx.EnvInt("VERIF_DIRECT", 60); i < k; i++ {
+		directCase(h, g, run, i)
 	}
 }
 
